@@ -1,3 +1,1154 @@
+// Correspondence runner and property oracle for C21 (client calls never panic
+// on any well-formed server response).
+//
+// One case = (operation, shape of the server's answers).  Child processes
+// (re-exec of this binary) run, per case, a fresh scripted server
+// (internal/sscript: real uacp/uasc on the server side) and a fresh real
+// client, connect with well-behaved answers, arm the shaped answers and call
+// the operation; the outcome class `value | error | panic` (a panic in the
+// calling goroutine is recovered; a panic in a background goroutine kills the
+// child, which the parent observes) is compared with the Lean model
+// `ClientResp.outcome`.  For the publish loop the delivered notification
+// classes are compared as well.
 package main
 
-func main() {}
+import (
+	"bufio"
+	"context"
+	"fmt"
+	"io"
+	"log"
+	"os"
+	"strconv"
+	"strings"
+	"sync"
+	"sync/atomic"
+	"time"
+
+	"github.com/gopcua/opcua"
+	"github.com/gopcua/opcua/id"
+	"github.com/gopcua/opcua/ua"
+	"github.com/gopcua/opcua/uasc"
+
+	"verifharness/internal/h"
+	"verifharness/internal/sscript"
+)
+
+// ------------------------------------------------------------------ cases
+
+type kase struct {
+	op, kind string
+	nReq     int
+	results  string // "-" or g/b letters
+	val      string // absent | tid:s | tid:aN
+	chain    string // "-" or kind:n,…
+	flags    string // "-" or letters z d u k
+	notifs   string // "-" or letters d e s o n
+}
+
+func (k kase) String() string {
+	return fmt.Sprintf("%s %s %d %s %s %s %s %s", k.op, k.kind, k.nReq, k.results, k.val, k.chain, k.flags, k.notifs)
+}
+
+func parseKase(s string) (kase, error) {
+	f := strings.Fields(s)
+	if len(f) != 8 {
+		return kase{}, fmt.Errorf("want 8 fields, got %d: %q", len(f), s)
+	}
+	n, err := strconv.Atoi(f[2])
+	if err != nil {
+		return kase{}, err
+	}
+	return kase{f[0], f[1], n, f[3], f[4], f[5], f[6], f[7]}, nil
+}
+
+func (k kase) res() []bool {
+	if k.results == "-" {
+		return nil
+	}
+	out := make([]bool, len(k.results))
+	for i, c := range k.results {
+		out[i] = c == 'g'
+	}
+	return out
+}
+func (k kase) has(c byte) bool { return strings.IndexByte(k.flags, c) >= 0 }
+
+type link struct {
+	kind string
+	n    int
+}
+
+func (k kase) links() []link {
+	if k.chain == "-" {
+		return nil
+	}
+	var out []link
+	for _, e := range strings.Split(k.chain, ",") {
+		p := strings.Split(e, ":")
+		n, _ := strconv.Atoi(p[1])
+		out = append(out, link{p[0], n})
+	}
+	return out
+}
+
+// valParts: present, tid, isArray, arrLen
+func (k kase) valParts() (bool, string, bool, int) {
+	if k.val == "absent" {
+		return false, "null", false, 0
+	}
+	p := strings.Split(k.val, ":")
+	if p[1] == "s" {
+		return true, p[0], false, 0
+	}
+	n, _ := strconv.Atoi(p[1][1:])
+	return true, p[0], true, n
+}
+
+var plainOps = []string{"read", "write", "browse", "browseNext", "registerNodes", "unregisterNodes", "historyRead",
+	"findServers", "findServersOnNetwork", "getEndpoints", "nodeAttributes", "subModify", "subUnmonitor",
+	"subSetMonitoringMode", "subSetTriggering"}
+var getterOps = []string{"nodeAttribute", "nodeClass", "browseName", "description", "displayName", "accessLevel",
+	"userAccessLevel", "namespaceArray", "subStats"}
+var backgroundOps = map[string]bool{"publish": true, "recreateItems": true, "transferOnReconnect": true}
+
+// ------------------------------------------------------------------ finding signatures (decidable predicates on the case)
+
+func firstOK(k kase) (bool, bool) { // (Attribute returns a variant, ok)
+	r := k.res()
+	if k.kind != "ok" || len(r) == 0 || !r[0] {
+		return false, false
+	}
+	return true, true
+}
+
+func signature(k kase) string {
+	r := k.res()
+	ok := k.kind == "ok"
+	present, tid, isArr, arrLen := k.valParts()
+	typed := func(want, name string) string {
+		if got, _ := firstOK(k); !got {
+			return ""
+		}
+		if !present { // DataValue.Decode allocates a Null variant
+			tid, isArr = "null", false
+		}
+		if isArr || tid != want {
+			return name
+		}
+		return ""
+	}
+	switch k.op {
+	case "subCancel":
+		if ok && len(r) == 0 {
+			return "C21.delete-empty-results"
+		}
+	case "subMonitor":
+		if ok && len(r) < k.nReq {
+			return "C21.monitor-fewer-results"
+		}
+	case "subModifyItems":
+		if !k.has('u') && ok {
+			for i := k.nReq; i < len(r); i++ {
+				if r[i] {
+					return "C21.modify-more-results"
+				}
+			}
+		}
+	case "recreateItems":
+		all := true
+		for _, b := range r {
+			all = all && b
+		}
+		if ok && all && len(r) < k.nReq {
+			return "C21.recreate-fewer-results"
+		}
+	case "transferOnReconnect":
+		if ok && k.nReq < len(r) {
+			return "C21.transfer-more-results"
+		}
+	case "references":
+		if ok && len(r) == 0 {
+			return "C21.browse-empty-results"
+		}
+		if ok {
+			for _, l := range k.links() {
+				if l.kind != "ok" {
+					break
+				}
+				if l.n == 0 {
+					return "C21.browsenext-empty-results"
+				}
+			}
+		}
+	case "nodeClass":
+		if got, _ := firstOK(k); got {
+			if present && isArr && arrLen == 0 && (tid == "int32" || tid == "sbyte") {
+				return "C21.nodeclass-empty-int-array"
+			}
+		}
+	case "browseName":
+		return typed("qname", "C21.browsename-type-assertion")
+	case "description":
+		return typed("ltext", "C21.description-type-assertion")
+	case "displayName":
+		return typed("ltext", "C21.displayname-type-assertion")
+	case "accessLevel":
+		return typed("byte", "C21.accesslevel-type-assertion")
+	case "userAccessLevel":
+		return typed("byte", "C21.useraccesslevel-type-assertion")
+	}
+	return ""
+}
+
+// panicTextMatches: the panic message is of the kind the signature describes
+func panicTextMatches(sig, msg string) bool {
+	switch {
+	case strings.Contains(sig, "type-assertion"), sig == "C21.nodeclass-empty-int-array":
+		return strings.Contains(msg, "interface conversion")
+	default:
+		return strings.Contains(msg, "index out of range")
+	}
+}
+
+// ------------------------------------------------------------------ child
+
+func variantOf(tid string, isArr bool, n int) *ua.Variant {
+	if !isArr {
+		switch tid {
+		case "null":
+			return &ua.Variant{}
+		case "byte":
+			return ua.MustVariant(uint8(3))
+		case "sbyte":
+			return ua.MustVariant(int8(-3))
+		case "int32":
+			return ua.MustVariant(int32(42))
+		case "qname":
+			return ua.MustVariant(&ua.QualifiedName{NamespaceIndex: 1, Name: "q"})
+		case "ltext":
+			return ua.MustVariant(&ua.LocalizedText{EncodingMask: ua.LocalizedTextText, Text: "t"})
+		case "string":
+			return ua.MustVariant("s")
+		default:
+			return ua.MustVariant(float64(1.5))
+		}
+	}
+	switch tid {
+	case "sbyte":
+		return ua.MustVariant(make([]int8, n))
+	case "int32":
+		return ua.MustVariant(make([]int32, n))
+	case "qname":
+		v := make([]*ua.QualifiedName, n)
+		for i := range v {
+			v[i] = &ua.QualifiedName{Name: "q"}
+		}
+		return ua.MustVariant(v)
+	case "ltext":
+		v := make([]*ua.LocalizedText, n)
+		for i := range v {
+			v[i] = &ua.LocalizedText{EncodingMask: ua.LocalizedTextText, Text: "t"}
+		}
+		return ua.MustVariant(v)
+	case "string":
+		v := make([]string, n)
+		for i := range v {
+			v[i] = "urn:x"
+		}
+		return ua.MustVariant(v)
+	default:
+		return ua.MustVariant(make([]float64, n))
+	}
+}
+
+func badOr(ok bool) ua.StatusCode {
+	if ok {
+		return ua.StatusOK
+	}
+	return ua.StatusBadNodeIDUnknown
+}
+
+type env struct {
+	k      kase
+	armed  atomic.Bool
+	phase  atomic.Int32 // background flows
+	nextK  atomic.Int32 // index into the BrowseNext chain
+	pubN   atomic.Int32 // PublishRequests seen after arming
+	subSeq atomic.Uint32
+	actN   atomic.Int32 // ActivateSession requests seen
+}
+
+// wrap gives the answer of the given kind: good(hdr) builds the expected type.
+func wrap(kind string, req ua.Request, good func(hdr *ua.ResponseHeader) ua.Response) ua.Response {
+	switch kind {
+	case "ok":
+		return good(sscript.Header(req, ua.StatusOK))
+	case "badStatus":
+		return good(sscript.Header(req, ua.StatusBadInternalError))
+	case "fault":
+		return sscript.Fault(req, ua.StatusBadUserAccessDenied)
+	default:
+		if _, ok := req.(*ua.FindServersOnNetworkRequest); ok {
+			return &ua.ReadResponse{ResponseHeader: sscript.Header(req, ua.StatusOK)}
+		}
+		return &ua.FindServersOnNetworkResponse{ResponseHeader: sscript.Header(req, ua.StatusOK)}
+	}
+}
+
+func (e *env) dataValues() []*ua.DataValue {
+	r := e.k.res()
+	present, tid, isArr, n := e.k.valParts()
+	out := make([]*ua.DataValue, len(r))
+	for i, ok := range r {
+		dv := &ua.DataValue{}
+		if i == 0 {
+			if present {
+				dv.EncodingMask |= ua.DataValueValue
+				dv.Value = variantOf(tid, isArr, n)
+			}
+		} else {
+			dv.EncodingMask |= ua.DataValueValue
+			dv.Value = ua.MustVariant(int32(i))
+		}
+		if !ok {
+			dv.EncodingMask |= ua.DataValueStatusCode
+			dv.Status = ua.StatusBadNodeIDUnknown
+		}
+		out[i] = dv
+	}
+	return out
+}
+
+func (e *env) statuses() []ua.StatusCode {
+	r := e.k.res()
+	out := make([]ua.StatusCode, len(r))
+	for i, ok := range r {
+		out[i] = badOr(ok)
+	}
+	return out
+}
+
+func (e *env) createResults(r []bool) []*ua.MonitoredItemCreateResult {
+	out := make([]*ua.MonitoredItemCreateResult, len(r))
+	for i, ok := range r {
+		out[i] = &ua.MonitoredItemCreateResult{StatusCode: badOr(ok), MonitoredItemID: uint32(i + 1), FilterResult: ua.NewExtensionObject(nil)}
+	}
+	return out
+}
+
+func allGood(n int) []bool {
+	r := make([]bool, n)
+	for i := range r {
+		r[i] = true
+	}
+	return r
+}
+
+func notifEO(c byte) *ua.ExtensionObject {
+	switch c {
+	case 'd':
+		return ua.NewExtensionObject(&ua.DataChangeNotification{MonitoredItems: []*ua.MonitoredItemNotification{{ClientHandle: 1, Value: &ua.DataValue{EncodingMask: ua.DataValueValue, Value: ua.MustVariant(int32(1))}}}})
+	case 'e':
+		return ua.NewExtensionObject(&ua.EventNotificationList{})
+	case 's':
+		return ua.NewExtensionObject(&ua.StatusChangeNotification{Status: ua.StatusGoodSubscriptionTransferred, DiagnosticInfo: &ua.DiagnosticInfo{}})
+	case 'o':
+		return ua.NewExtensionObject(&ua.ReadValueID{NodeID: ua.NewNumericNodeID(0, 1), DataEncoding: &ua.QualifiedName{}})
+	default: // 'n': an extension object without a body
+		return ua.NewExtensionObject(nil)
+	}
+}
+
+const markerHandle = 999
+
+// script answers the requests of the operation under test with the shape;
+// everything else gets the default (well-behaved) answer.
+func (e *env) script(s *sscript.Server, sc *uasc.SecureChannel, r ua.Request) ua.Response {
+	k := e.k
+	switch req := r.(type) {
+	case *ua.PublishRequest:
+		if !e.armed.Load() || k.op != "publish" {
+			return holdForever(r)
+		}
+		switch e.pubN.Add(1) {
+		case 1:
+			subID := uint32(1)
+			if k.has('k') {
+				subID = 77
+			}
+			var data []*ua.ExtensionObject
+			if k.notifs != "-" {
+				for i := 0; i < len(k.notifs); i++ {
+					data = append(data, notifEO(k.notifs[i]))
+				}
+			}
+			return wrap(k.kind, r, func(hdr *ua.ResponseHeader) ua.Response {
+				return &ua.PublishResponse{ResponseHeader: hdr, SubscriptionID: subID, Results: e.statuses(),
+					NotificationMessage: &ua.NotificationMessage{SequenceNumber: 1, PublishTime: time.Now(), NotificationData: data}}
+			})
+		case 2:
+			// marker: a data change with a recognisable client handle for subscription 1
+			return &ua.PublishResponse{ResponseHeader: sscript.Header(r, ua.StatusOK), SubscriptionID: 1, Results: []ua.StatusCode{},
+				NotificationMessage: &ua.NotificationMessage{SequenceNumber: 2, PublishTime: time.Now(), NotificationData: []*ua.ExtensionObject{
+					ua.NewExtensionObject(&ua.DataChangeNotification{MonitoredItems: []*ua.MonitoredItemNotification{{ClientHandle: markerHandle, Value: &ua.DataValue{}}}})}}}
+		}
+		return holdForever(r)
+	case *ua.CreateSubscriptionRequest:
+		idv := e.subSeq.Add(1)
+		if e.armed.Load() && k.op == "subscribe" {
+			if k.has('z') {
+				idv = 0
+			} else if k.has('d') {
+				idv = 1
+			}
+			return wrap(k.kind, r, func(hdr *ua.ResponseHeader) ua.Response {
+				return &ua.CreateSubscriptionResponse{ResponseHeader: hdr, SubscriptionID: idv, RevisedPublishingInterval: 100, RevisedLifetimeCount: 100, RevisedMaxKeepAliveCount: 10}
+			})
+		}
+		if e.phase.Load() >= 1 { // recreated subscriptions get new ids
+			idv += 100
+		}
+		return &ua.CreateSubscriptionResponse{ResponseHeader: sscript.Header(r, ua.StatusOK), SubscriptionID: idv, RevisedPublishingInterval: 100, RevisedLifetimeCount: 100, RevisedMaxKeepAliveCount: 10}
+	case *ua.CreateMonitoredItemsRequest:
+		shaped := e.armed.Load() && (k.op == "subMonitor" || (k.op == "recreateItems" && e.phase.Load() >= 1))
+		if shaped {
+			return wrap(k.kind, r, func(hdr *ua.ResponseHeader) ua.Response {
+				return &ua.CreateMonitoredItemsResponse{ResponseHeader: hdr, Results: e.createResults(k.res())}
+			})
+		}
+		return &ua.CreateMonitoredItemsResponse{ResponseHeader: sscript.Header(r, ua.StatusOK), Results: e.createResults(allGood(len(req.ItemsToCreate)))}
+	case *ua.ModifyMonitoredItemsRequest:
+		return wrap(k.kind, r, func(hdr *ua.ResponseHeader) ua.Response {
+			res := make([]*ua.MonitoredItemModifyResult, len(k.res()))
+			for i, ok := range k.res() {
+				res[i] = &ua.MonitoredItemModifyResult{StatusCode: badOr(ok), RevisedQueueSize: 5, FilterResult: ua.NewExtensionObject(nil)}
+			}
+			return &ua.ModifyMonitoredItemsResponse{ResponseHeader: hdr, Results: res}
+		})
+	case *ua.DeleteSubscriptionsRequest:
+		if k.op == "subCancel" {
+			return wrap(k.kind, r, func(hdr *ua.ResponseHeader) ua.Response {
+				return &ua.DeleteSubscriptionsResponse{ResponseHeader: hdr, Results: e.statuses()}
+			})
+		}
+		return &ua.DeleteSubscriptionsResponse{ResponseHeader: sscript.Header(r, ua.StatusOK), Results: []ua.StatusCode{ua.StatusOK}}
+	case *ua.TransferSubscriptionsRequest:
+		if k.op == "transferOnReconnect" {
+			return wrap(k.kind, r, func(hdr *ua.ResponseHeader) ua.Response {
+				res := make([]*ua.TransferResult, len(k.res()))
+				for i, ok := range k.res() {
+					st := ua.StatusOK
+					if !ok {
+						st = ua.StatusBadSubscriptionIDInvalid
+					}
+					res[i] = &ua.TransferResult{StatusCode: st}
+				}
+				return &ua.TransferSubscriptionsResponse{ResponseHeader: hdr, Results: res}
+			})
+		}
+		return sscript.Fault(r, ua.StatusBadServiceUnsupported)
+	case *ua.RepublishRequest:
+		return sscript.Fault(r, ua.StatusBadMessageNotAvailable)
+	case *ua.ActivateSessionRequest:
+		// background flows: the first ActivateSession on the second connection (restoreSession) is refused,
+		// so that the client recreates the session and transfers / recreates its subscriptions
+		if e.phase.Load() >= 1 && e.actN.Add(1) == 1 {
+			return sscript.Fault(r, ua.StatusBadSessionIDInvalid)
+		}
+		return nil
+	}
+	if !e.armed.Load() {
+		return nil
+	}
+	switch req := r.(type) {
+	case *ua.ReadRequest:
+		switch k.op {
+		case "read", "nodeAttributes", "nodeAttribute", "nodeClass", "browseName", "description", "displayName",
+			"accessLevel", "userAccessLevel", "namespaceArray", "subStats":
+			return wrap(k.kind, r, func(hdr *ua.ResponseHeader) ua.Response {
+				return &ua.ReadResponse{ResponseHeader: hdr, Results: e.dataValues()}
+			})
+		}
+		_ = req
+	case *ua.WriteRequest:
+		return wrap(k.kind, r, func(hdr *ua.ResponseHeader) ua.Response {
+			return &ua.WriteResponse{ResponseHeader: hdr, Results: e.statuses()}
+		})
+	case *ua.BrowseRequest:
+		return wrap(k.kind, r, func(hdr *ua.ResponseHeader) ua.Response {
+			res := make([]*ua.BrowseResult, len(k.res()))
+			for i, ok := range k.res() {
+				res[i] = &ua.BrowseResult{StatusCode: badOr(ok), References: []*ua.ReferenceDescription{}}
+				if i == 0 && k.op == "references" && len(k.links()) > 0 {
+					res[i].ContinuationPoint = []byte{1}
+				}
+			}
+			return &ua.BrowseResponse{ResponseHeader: hdr, Results: res}
+		})
+	case *ua.BrowseNextRequest:
+		if k.op == "references" {
+			links := k.links()
+			i := int(e.nextK.Add(1)) - 1
+			if i >= len(links) {
+				return sscript.Fault(r, ua.StatusBadContinuationPointInvalid)
+			}
+			return wrap(links[i].kind, r, func(hdr *ua.ResponseHeader) ua.Response {
+				res := make([]*ua.BrowseResult, links[i].n)
+				for j := range res {
+					res[j] = &ua.BrowseResult{References: []*ua.ReferenceDescription{}}
+					if j == 0 && i+1 < len(links) {
+						res[j].ContinuationPoint = []byte{byte(i + 2)}
+					}
+				}
+				return &ua.BrowseNextResponse{ResponseHeader: hdr, Results: res}
+			})
+		}
+		return wrap(k.kind, r, func(hdr *ua.ResponseHeader) ua.Response {
+			res := make([]*ua.BrowseResult, len(k.res()))
+			for i := range res {
+				res[i] = &ua.BrowseResult{References: []*ua.ReferenceDescription{}}
+			}
+			return &ua.BrowseNextResponse{ResponseHeader: hdr, Results: res}
+		})
+	case *ua.RegisterNodesRequest:
+		return wrap(k.kind, r, func(hdr *ua.ResponseHeader) ua.Response {
+			ids := make([]*ua.NodeID, len(k.res()))
+			for i := range ids {
+				ids[i] = ua.NewNumericNodeID(1, uint32(i))
+			}
+			return &ua.RegisterNodesResponse{ResponseHeader: hdr, RegisteredNodeIDs: ids}
+		})
+	case *ua.UnregisterNodesRequest:
+		return wrap(k.kind, r, func(hdr *ua.ResponseHeader) ua.Response { return &ua.UnregisterNodesResponse{ResponseHeader: hdr} })
+	case *ua.HistoryReadRequest:
+		return wrap(k.kind, r, func(hdr *ua.ResponseHeader) ua.Response {
+			res := make([]*ua.HistoryReadResult, len(k.res()))
+			for i, ok := range k.res() {
+				res[i] = &ua.HistoryReadResult{StatusCode: badOr(ok), HistoryData: ua.NewExtensionObject(nil)}
+			}
+			return &ua.HistoryReadResponse{ResponseHeader: hdr, Results: res}
+		})
+	case *ua.FindServersRequest:
+		return wrap(k.kind, r, func(hdr *ua.ResponseHeader) ua.Response {
+			return &ua.FindServersResponse{ResponseHeader: hdr, Servers: make([]*ua.ApplicationDescription, 0)}
+		})
+	case *ua.FindServersOnNetworkRequest:
+		return wrap(k.kind, r, func(hdr *ua.ResponseHeader) ua.Response { return &ua.FindServersOnNetworkResponse{ResponseHeader: hdr} })
+	case *ua.GetEndpointsRequest:
+		return wrap(k.kind, r, func(hdr *ua.ResponseHeader) ua.Response {
+			return &ua.GetEndpointsResponse{ResponseHeader: hdr, Endpoints: []*ua.EndpointDescription{}}
+		})
+	case *ua.CallRequest:
+		return wrap(k.kind, r, func(hdr *ua.ResponseHeader) ua.Response {
+			res := make([]*ua.CallMethodResult, len(k.res()))
+			for i, ok := range k.res() {
+				res[i] = &ua.CallMethodResult{StatusCode: badOr(ok)}
+			}
+			return &ua.CallResponse{ResponseHeader: hdr, Results: res}
+		})
+	case *ua.TranslateBrowsePathsToNodeIDsRequest:
+		return wrap(k.kind, r, func(hdr *ua.ResponseHeader) ua.Response {
+			res := make([]*ua.BrowsePathResult, len(k.res()))
+			for i, ok := range k.res() {
+				res[i] = &ua.BrowsePathResult{StatusCode: badOr(ok)}
+				if i == 0 {
+					for j := 0; j < k.nReq; j++ {
+						res[i].Targets = append(res[i].Targets, &ua.BrowsePathTarget{TargetID: &ua.ExpandedNodeID{NodeID: ua.NewNumericNodeID(1, uint32(j))}})
+					}
+				}
+			}
+			return &ua.TranslateBrowsePathsToNodeIDsResponse{ResponseHeader: hdr, Results: res}
+		})
+	case *ua.ModifySubscriptionRequest:
+		return wrap(k.kind, r, func(hdr *ua.ResponseHeader) ua.Response {
+			return &ua.ModifySubscriptionResponse{ResponseHeader: hdr, RevisedPublishingInterval: 50}
+		})
+	case *ua.DeleteMonitoredItemsRequest:
+		return wrap(k.kind, r, func(hdr *ua.ResponseHeader) ua.Response {
+			return &ua.DeleteMonitoredItemsResponse{ResponseHeader: hdr, Results: e.statuses()}
+		})
+	case *ua.SetMonitoringModeRequest:
+		return wrap(k.kind, r, func(hdr *ua.ResponseHeader) ua.Response {
+			return &ua.SetMonitoringModeResponse{ResponseHeader: hdr, Results: e.statuses()}
+		})
+	case *ua.SetTriggeringRequest:
+		return wrap(k.kind, r, func(hdr *ua.ResponseHeader) ua.Response {
+			return &ua.SetTriggeringResponse{ResponseHeader: hdr, AddResults: e.statuses()}
+		})
+	}
+	return nil
+}
+
+// holdForever: no answer is sent for this request.
+func holdForever(r ua.Request) ua.Response { return sscript.NoAnswer }
+
+func items(n int) []*ua.MonitoredItemCreateRequest {
+	out := make([]*ua.MonitoredItemCreateRequest, n)
+	for i := range out {
+		out[i] = opcua.NewMonitoredItemCreateRequestWithDefaults(ua.NewNumericNodeID(1, uint32(1000+i)), ua.AttributeIDValue, uint32(i+1))
+	}
+	return out
+}
+
+func nodes(n int) []*ua.NodeID {
+	out := make([]*ua.NodeID, n)
+	for i := range out {
+		out[i] = ua.NewNumericNodeID(1, uint32(2000+i))
+	}
+	return out
+}
+
+// one runs one case and returns (answer line, extra text).
+func one(k kase) (line, extra string) {
+	e := &env{k: k}
+	srv, err := sscript.Start(nil, nil, e.script)
+	if err != nil {
+		fmt.Println("infra listen:", err)
+		os.Exit(4)
+	}
+	defer srv.Close()
+
+	background := backgroundOps[k.op]
+	var mu sync.Mutex
+	var states []opcua.ConnState
+	opts := []opcua.Option{
+		opcua.SecurityMode(ua.MessageSecurityModeNone),
+		opcua.AutoReconnect(k.op == "recreateItems" || k.op == "transferOnReconnect"),
+		opcua.ReconnectInterval(20 * time.Millisecond),
+		opcua.RequestTimeout(30 * time.Second),
+		opcua.DialTimeout(30 * time.Second),
+		opcua.StateChangedFunc(func(s opcua.ConnState) {
+			mu.Lock()
+			states = append(states, s)
+			mu.Unlock()
+		}),
+	}
+	c, err := opcua.NewClient(srv.URL(), opts...)
+	if err != nil {
+		fmt.Println("infra newclient:", err)
+		os.Exit(4)
+	}
+	ctx, cancel := context.WithTimeout(context.Background(), 120*time.Second)
+	defer cancel()
+	if err := c.Connect(ctx); err != nil {
+		return "dialfail", strings.ReplaceAll(err.Error(), "\n", " ")
+	}
+	defer func() {
+		if !background {
+			go c.Close(context.Background())
+		}
+	}()
+
+	// --- preparation with well-behaved answers
+	notifCh := make(chan *opcua.PublishNotificationData, 256)
+	var sub *opcua.Subscription
+	needSub := map[string]bool{"subCancel": true, "subMonitor": true, "subModifyItems": true, "subStats": true, "subModify": true,
+		"subUnmonitor": true, "subSetMonitoringMode": true, "subSetTriggering": true, "publish": true, "recreateItems": true}
+	prep := func() error {
+		if needSub[k.op] || (k.op == "subscribe" && k.has('d')) {
+			sub, err = c.Subscribe(ctx, &opcua.SubscriptionParameters{Interval: 100 * time.Millisecond}, notifCh)
+			if err != nil {
+				return err
+			}
+		}
+		if k.op == "transferOnReconnect" {
+			for i := 0; i < k.nReq; i++ {
+				if _, err := c.Subscribe(ctx, &opcua.SubscriptionParameters{Interval: 100 * time.Millisecond}, notifCh); err != nil {
+					return err
+				}
+			}
+		}
+		switch k.op {
+		case "subModifyItems", "subSetMonitoringMode", "subUnmonitor", "recreateItems":
+			if k.nReq > 0 {
+				if _, err := sub.Monitor(ctx, ua.TimestampsToReturnBoth, items(k.nReq)...); err != nil {
+					return err
+				}
+			}
+		}
+		return nil
+	}
+	if k.op != "publish" {
+		if err := prep(); err != nil {
+			return "infra-prep", strings.ReplaceAll(err.Error(), "\n", " ")
+		}
+	}
+
+	if background {
+		return runBackground(ctx, e, srv, c, k, notifCh, prep, &mu, &states)
+	}
+
+	// --- the operation under test, against the shaped answers
+	e.armed.Store(true)
+	defer func() {
+		if x := recover(); x != nil {
+			line, extra = "panic -", strings.ReplaceAll(fmt.Sprint(x), "\n", " ")
+		}
+	}()
+	n := c.Node(ua.NewNumericNodeID(1, 5))
+	ids := func() []uint32 {
+		out := make([]uint32, k.nReq)
+		for i := range out {
+			out[i] = uint32(i + 1)
+		}
+		return out
+	}
+	switch k.op {
+	case "read":
+		rq := &ua.ReadRequest{}
+		for _, nid := range nodes(k.nReq) {
+			rq.NodesToRead = append(rq.NodesToRead, &ua.ReadValueID{NodeID: nid})
+		}
+		_, err = c.Read(ctx, rq)
+	case "write":
+		rq := &ua.WriteRequest{}
+		for _, nid := range nodes(k.nReq) {
+			rq.NodesToWrite = append(rq.NodesToWrite, &ua.WriteValue{NodeID: nid, AttributeID: ua.AttributeIDValue, Value: &ua.DataValue{EncodingMask: ua.DataValueValue, Value: ua.MustVariant(int32(1))}})
+		}
+		_, err = c.Write(ctx, rq)
+	case "browse":
+		rq := &ua.BrowseRequest{}
+		for _, nid := range nodes(k.nReq) {
+			rq.NodesToBrowse = append(rq.NodesToBrowse, &ua.BrowseDescription{NodeID: nid, ReferenceTypeID: ua.NewNumericNodeID(0, id.References)})
+		}
+		_, err = c.Browse(ctx, rq)
+	case "browseNext":
+		_, err = c.BrowseNext(ctx, &ua.BrowseNextRequest{ContinuationPoints: make([][]byte, k.nReq)})
+	case "registerNodes":
+		_, err = c.RegisterNodes(ctx, &ua.RegisterNodesRequest{NodesToRegister: nodes(k.nReq)})
+	case "unregisterNodes":
+		_, err = c.UnregisterNodes(ctx, &ua.UnregisterNodesRequest{NodesToUnregister: nodes(k.nReq)})
+	case "historyRead":
+		var hv []*ua.HistoryReadValueID
+		for _, nid := range nodes(k.nReq) {
+			hv = append(hv, &ua.HistoryReadValueID{NodeID: nid, DataEncoding: &ua.QualifiedName{}})
+		}
+		_, err = c.HistoryReadRawModified(ctx, hv, &ua.ReadRawModifiedDetails{StartTime: time.Now().Add(-time.Hour), EndTime: time.Now(), NumValuesPerNode: 1})
+	case "findServers":
+		_, err = c.FindServers(ctx)
+	case "findServersOnNetwork":
+		_, err = c.FindServersOnNetwork(ctx)
+	case "getEndpoints":
+		_, err = c.GetEndpoints(ctx)
+	case "nodeAttributes":
+		attrs := make([]ua.AttributeID, k.nReq)
+		for i := range attrs {
+			attrs[i] = ua.AttributeIDValue
+		}
+		_, err = n.Attributes(ctx, attrs...)
+	case "call":
+		_, err = c.Call(ctx, &ua.CallMethodRequest{ObjectID: ua.NewNumericNodeID(1, 1), MethodID: ua.NewNumericNodeID(1, 2)})
+	case "nodeAttribute":
+		_, err = n.Value(ctx)
+	case "nodeClass":
+		_, err = n.NodeClass(ctx)
+	case "browseName":
+		_, err = n.BrowseName(ctx)
+	case "description":
+		_, err = n.Description(ctx)
+	case "displayName":
+		_, err = n.DisplayName(ctx)
+	case "accessLevel":
+		_, err = n.HasAccessLevel(ctx, ua.AccessLevelTypeCurrentRead)
+	case "userAccessLevel":
+		_, err = n.HasUserAccessLevel(ctx, ua.AccessLevelTypeCurrentRead)
+	case "namespaceArray":
+		err = c.UpdateNamespaces(ctx)
+	case "subStats":
+		_, err = sub.Stats(ctx)
+	case "references":
+		_, err = n.ReferencedNodes(ctx, id.HierarchicalReferences, ua.BrowseDirectionForward, ua.NodeClassAll, true)
+	case "translate":
+		_, err = n.TranslateBrowsePathInNamespaceToNodeID(ctx, 1, "a.b")
+	case "subscribe":
+		_, err = c.Subscribe(ctx, nil, notifCh)
+	case "subCancel":
+		err = sub.Cancel(ctx)
+	case "subMonitor":
+		_, err = sub.Monitor(ctx, ua.TimestampsToReturnBoth, items(k.nReq)...)
+	case "subModifyItems":
+		var mods []*ua.MonitoredItemModifyRequest
+		for i := 0; i < k.nReq; i++ {
+			idv := uint32(i + 1)
+			if k.has('u') && i == k.nReq-1 {
+				idv = 9999
+			}
+			mods = append(mods, &ua.MonitoredItemModifyRequest{MonitoredItemID: idv, RequestedParameters: &ua.MonitoringParameters{ClientHandle: idv, QueueSize: 3}})
+		}
+		_, err = sub.ModifyMonitoredItems(ctx, ua.TimestampsToReturnBoth, mods...)
+	case "subModify":
+		_, err = sub.ModifySubscription(ctx, opcua.SubscriptionParameters{Interval: 50 * time.Millisecond})
+	case "subUnmonitor":
+		_, err = sub.Unmonitor(ctx, ids()...)
+	case "subSetMonitoringMode":
+		_, err = sub.SetMonitoringMode(ctx, ua.MonitoringModeSampling, ids()...)
+	case "subSetTriggering":
+		_, err = sub.SetTriggering(ctx, 1, ids(), nil)
+	default:
+		return "infra-unknown-op", k.op
+	}
+	if err != nil {
+		return "error -", strings.ReplaceAll(err.Error(), "\n", " ")
+	}
+	return "value -", ""
+}
+
+func lastState(mu *sync.Mutex, states *[]opcua.ConnState) (opcua.ConnState, int) {
+	mu.Lock()
+	defer mu.Unlock()
+	if len(*states) == 0 {
+		return opcua.Closed, 0
+	}
+	return (*states)[len(*states)-1], len(*states)
+}
+
+// runBackground drives the flows whose code runs in the client's own goroutines.
+func runBackground(ctx context.Context, e *env, srv *sscript.Server, c *opcua.Client, k kase, notifCh chan *opcua.PublishNotificationData,
+	prep func() error, mu *sync.Mutex, states *[]opcua.ConnState) (string, string) {
+	switch k.op {
+	case "publish":
+		// the first PublishRequest after Subscribe gets the shaped answer, the second one a marker
+		e.armed.Store(true)
+		if err := prep(); err != nil {
+			return "infra-prep", err.Error()
+		}
+		if k.kind != "ok" {
+			// the loop pauses itself / the monitor goroutine reacts: only "no panic" is observed
+			time.Sleep(400 * time.Millisecond)
+			return "value -", ""
+		}
+		// a second Subscribe resumes a paused loop, so that the marker request is sent in any case
+		if _, err := c.Subscribe(ctx, &opcua.SubscriptionParameters{Interval: 100 * time.Millisecond}, notifCh); err != nil {
+			return "infra-prep", err.Error()
+		}
+		deliv := ""
+		deadline := time.After(40 * time.Second)
+		for {
+			select {
+			case d := <-notifCh:
+				if dc, ok := d.Value.(*ua.DataChangeNotification); ok && len(dc.MonitoredItems) == 1 && dc.MonitoredItems[0].ClientHandle == markerHandle {
+					if deliv == "" {
+						deliv = "-"
+					}
+					return "value " + deliv, ""
+				}
+				if d.Error != nil {
+					deliv += "e"
+				} else {
+					deliv += "v"
+				}
+			case <-deadline:
+				return "infra-marker-timeout", deliv
+			}
+		}
+	case "recreateItems", "transferOnReconnect":
+		_, n0 := lastState(mu, states)
+		e.armed.Store(true)
+		e.phase.Store(1)
+		srv.DropAll()
+		deadline := time.Now().Add(60 * time.Second)
+		for time.Now().Before(deadline) {
+			st, n := lastState(mu, states)
+			if n > n0 && st == opcua.Connected {
+				time.Sleep(20 * time.Millisecond)
+				return "value -", ""
+			}
+			time.Sleep(5 * time.Millisecond)
+		}
+		st, _ := lastState(mu, states)
+		return "infra-reconnect-timeout", st.String() + " seen=" + strings.Join(srv.Seen(), ",")
+	}
+	return "infra-unknown-op", k.op
+}
+
+func child() {
+	log.SetOutput(io.Discard)
+	in := bufio.NewScanner(os.Stdin)
+	out := bufio.NewWriter(os.Stdout)
+	for in.Scan() {
+		f := strings.SplitN(in.Text(), " ", 3)
+		if len(f) != 3 {
+			continue
+		}
+		k, err := parseKase(f[2])
+		if err != nil {
+			fmt.Println("infra bad case:", err)
+			os.Exit(4)
+		}
+		line, extra := one(k)
+		fmt.Fprintf(out, "%s %s | %s\n", f[0], line, extra)
+		out.Flush()
+	}
+}
+
+// ------------------------------------------------------------------ parent
+
+func genCases(o *h.Opts, rnd *h.Rand) []kase {
+	var cases []kase
+	seen := map[string]bool{}
+	add := func(k kase) {
+		if !seen[k.String()] {
+			seen[k.String()] = true
+			cases = append(cases, k)
+		}
+	}
+	kinds := []string{"ok", "badStatus", "fault", "wrongType"}
+	gb := func(n int, pat int) string { // n results, bit i of pat set = Bad
+		if n == 0 {
+			return "-"
+		}
+		b := make([]byte, n)
+		for i := range b {
+			b[i] = 'g'
+			if pat>>uint(i)&1 == 1 {
+				b[i] = 'b'
+			}
+		}
+		return string(b)
+	}
+	base := func(op string) kase { return kase{op, "ok", 1, "g", "int32:s", "-", "-", "-"} }
+
+	for _, op := range plainOps {
+		for _, kd := range kinds {
+			k := base(op)
+			k.kind = kd
+			add(k)
+		}
+		for _, n := range []int{0, 1, 3} {
+			for _, m := range []int{0, 1, 2, 4} {
+				k := base(op)
+				k.nReq, k.results = n, gb(m, rnd.Intn(1<<uint(m)))
+				if op == "subSetMonitoringMode" || op == "subUnmonitor" {
+					k.nReq = n
+				}
+				add(k)
+			}
+		}
+	}
+	vals := []string{"absent", "null:s", "byte:s", "sbyte:s", "int32:s", "qname:s", "ltext:s", "string:s", "double:s",
+		"sbyte:a0", "sbyte:a2", "int32:a0", "int32:a1", "qname:a0", "qname:a1", "ltext:a0", "ltext:a2", "string:a0", "string:a2", "double:a0", "double:a3"}
+	for _, op := range getterOps {
+		for _, kd := range kinds {
+			k := base(op)
+			k.kind = kd
+			add(k)
+		}
+		for _, v := range vals {
+			for _, rs := range []string{"g", "b", "gg"} {
+				k := base(op)
+				k.val, k.results = v, rs
+				if rs != "g" && !rnd.Chance(o.N(35, 100)) {
+					continue
+				}
+				add(k)
+			}
+		}
+		k := base(op)
+		k.results = "-"
+		add(k)
+	}
+	for _, kd := range kinds {
+		for _, m := range []int{0, 1, 2} {
+			k := base("call")
+			k.kind, k.results = kd, gb(m, 0)
+			add(k)
+		}
+		for _, op := range []string{"subCancel", "subMonitor", "subModifyItems", "recreateItems", "transferOnReconnect", "translate", "subscribe", "references"} {
+			k := base(op)
+			k.kind = kd
+			add(k)
+		}
+	}
+	for m := 0; m <= 3; m++ {
+		for pat := 0; pat < 1<<uint(m); pat++ {
+			k := base("subCancel")
+			k.results = gb(m, pat)
+			add(k)
+			k = base("translate")
+			k.results = gb(m, pat)
+			for _, t := range []int{0, 1, 2} {
+				k.nReq = t
+				add(k)
+			}
+		}
+	}
+	for n := 0; n <= 3; n++ {
+		for m := 0; m <= 5; m++ {
+			for _, pat := range []int{0, 1, 1 << uint(m) >> 1, rnd.Intn(1 << uint(m))} {
+				for _, op := range []string{"subMonitor", "subModifyItems", "recreateItems", "transferOnReconnect"} {
+					if (op == "recreateItems" || op == "transferOnReconnect") && !o.Thorough() && pat != 0 && pat != 1 && !(m <= 2) {
+						continue
+					}
+					k := base(op)
+					k.nReq, k.results = n, gb(m, pat)
+					add(k)
+				}
+			}
+		}
+	}
+	for _, n := range []int{1, 2} {
+		k := base("subModifyItems")
+		k.nReq, k.results, k.flags = n, gb(n+1, 0), "u"
+		add(k)
+	}
+	for _, f := range []string{"z", "d", "-"} {
+		k := base("subscribe")
+		k.flags = f
+		add(k)
+	}
+	chains := []string{"-", "ok:1", "ok:0", "ok:2,ok:1", "ok:1,ok:0", "ok:1,fault:0", "ok:1,ok:1,ok:0", "badStatus:1", "wrongType:1", "fault:0", "ok:3,ok:1,ok:2"}
+	for _, ch := range chains {
+		for _, m := range []int{0, 1, 2} {
+			k := base("references")
+			k.results, k.chain = gb(m, 0), ch
+			add(k)
+		}
+	}
+	notifs := []string{"-", "d", "e", "s", "o", "n", "dd", "don", "nnd", "sed", "ood", "dnesod"}
+	for _, nf := range notifs {
+		for _, fl := range []string{"-", "k"} {
+			for _, rs := range []string{"-", "g", "bgg"} {
+				k := base("publish")
+				k.nReq, k.results, k.flags, k.notifs = 0, rs, fl, nf
+				if (fl == "k" || rs != "-") && !rnd.Chance(o.N(30, 100)) {
+					continue
+				}
+				add(k)
+			}
+		}
+	}
+	for _, kd := range kinds[1:] {
+		k := base("publish")
+		k.kind, k.nReq, k.results, k.notifs = kd, 0, "-", "d"
+		add(k)
+	}
+	return cases
+}
+
+func main() {
+	if os.Getenv("VERIF_C21_CHILD") != "" {
+		child()
+		return
+	}
+	o := h.ParseOpts()
+	r := h.NewResult("C21", o)
+	d, err := h.StartDriver(o.Driver)
+	if err != nil {
+		r.InfraError = err.Error()
+		r.Write(o.Out)
+		return
+	}
+	defer d.Close()
+	rnd := h.NewRand(o.Seed)
+	r.Rule = "case = (operation, answer kind, number of request items, result array with per-result status, Variant class of the first DataValue, BrowseNext chain, flags, notification data); the real client in a child process against a scripted server (fresh client and server per case) vs Lean ClientResp.outcome; all 34 operations x 4 answer kinds, result lengths 0..5 against request lengths 0..3 with status patterns, 21 Variant classes for the 9 getters, 11 BrowseNext chains, publish loop with 12 notification lists; distinct by the whole tuple"
+
+	var cases []kase
+	if o.Replay != "" {
+		k, err := parseKase(o.Replay)
+		if err != nil {
+			r.InfraError = "bad replay case: " + err.Error()
+			r.Write(o.Out)
+			return
+		}
+		cases = []kase{k}
+	} else {
+		seen := map[string]bool{}
+		for _, l := range o.CorpusLines() {
+			if k, err := parseKase(l); err == nil && !seen[k.String()] {
+				seen[k.String()] = true
+				cases = append(cases, k)
+			}
+		}
+		for _, k := range genCases(o, rnd) {
+			if !seen[k.String()] {
+				seen[k.String()] = true
+				cases = append(cases, k)
+			}
+		}
+	}
+
+	texts := make([]string, len(cases))
+	for i, k := range cases {
+		texts[i] = k.String()
+	}
+	outs := make([]sscript.Answer, len(cases))
+	const workers = 8
+	var wg sync.WaitGroup
+	for w := 0; w < workers; w++ {
+		var idx []int
+		for i := w; i < len(cases); i += workers {
+			idx = append(idx, i)
+		}
+		if len(idx) == 0 {
+			continue
+		}
+		wg.Add(1)
+		go func(idx []int) {
+			defer wg.Done()
+			sscript.RunBatch([]string{"VERIF_C21_CHILD=1"}, texts, idx, outs, o.Seed, 10*time.Second)
+		}(idx)
+	}
+	wg.Wait()
+	// infrastructure hiccups (dial failed, marker / reconnect timeout) are retried alone
+	for i := range cases {
+		for try := 0; try < 3 && outs[i].Infra == "" && outs[i].Died == "" && (outs[i].Line == "dialfail" || strings.HasPrefix(outs[i].Line, "infra-")); try++ {
+			r.Hit("retry:" + outs[i].Line)
+			prev := outs[i]
+			outs[i] = sscript.Answer{}
+			sscript.RunBatch([]string{"VERIF_C21_CHILD=1"}, texts, []int{i}, outs, o.Seed+uint64(try)+1, 10*time.Second)
+			if outs[i].Line == "" && outs[i].Died == "" && outs[i].Infra == "" {
+				outs[i] = prev
+			}
+		}
+		if outs[i].Line == "dialfail" || strings.HasPrefix(outs[i].Line, "infra-") {
+			outs[i].Infra = outs[i].Line + " for " + texts[i] + ": " + outs[i].Extra
+		}
+	}
+
+	for i, k := range cases {
+		out := outs[i]
+		if out.Infra != "" {
+			r.InfraError = out.Infra
+			r.Write(o.Out)
+			return
+		}
+		c := k.String()
+		r.Count(c, true)
+		line, msg := out.Line, out.Extra
+		if out.Died != "" {
+			line, msg = "panic -", out.Died
+			r.Hit("panic-in-background-goroutine")
+		}
+		res := strings.Fields(line)[0]
+		r.Hit("op:" + k.op)
+		r.Hit("kind:" + k.kind)
+		r.Hit("outcome:" + res)
+		r.Sample(fmt.Sprintf("%s -> %s", c, line))
+		r.Compare(d, "op "+c, line)
+		sig := signature(k)
+		sigTxt := sig
+		if sigTxt == "" {
+			sigTxt = "-"
+		}
+		r.Compare(d, "sig "+c, sigTxt)
+
+		// ---- the property's own oracle, on the implementation alone: no client call panics
+		if res == "panic" {
+			if sig != "" && !panicTextMatches(sig, msg) {
+				sig = "" // a different panic than the recorded one
+			}
+			r.Fail(c, sig, "client panicked: "+msg)
+			if sig != "" {
+				r.Confirm(sig, c+" -> "+msg)
+			}
+		}
+	}
+	for _, op := range append(append([]string{}, plainOps...), append(getterOps, "call", "references", "translate", "subscribe", "subCancel",
+		"subMonitor", "subModifyItems", "recreateItems", "transferOnReconnect", "publish")...) {
+		if r.Distribution["op:"+op] == 0 && o.Replay == "" {
+			r.Unreached = append(r.Unreached, "op:"+op)
+		}
+	}
+	r.Write(o.Out)
+}
